@@ -1,5 +1,56 @@
 (* Property C13 - position and comment bookkeeping is transparent.  Theorems only. *)
-From MF Require Import Lib.Base Model.SlotDoc Model.SlotCheck Model.Api Proofs.SlotsAll.
+From MF Require Import Lib.Base Model.GrammarTypes Model.Transformer Model.SlotDoc Model.SlotCheck Model.Api
+  Proofs.SlotsAll Proofs.C13U Proofs.C13U_Comments.
+
+(* ---- include_position, universally *)
+
+(* [U] for EVERY text and either comment mode: when the load with positions and
+   the load without both succeed, they are equal once every __position__ entry
+   is removed at every depth (logical relation over all 48 transformer callbacks,
+   the comments transformer and the final conversion) *)
+Theorem C13_position_transparent :
+  forall ic text v w, loads true ic text = Ok v -> loads false ic text = Ok w -> strip_pos v = strip_pos w.
+Proof. exact position_transparent_loads. Qed.
+Print Assumptions C13_position_transparent.
+
+(* [U] one-sided form (the plain load IS the positioned load with the entries
+   removed) whenever the plain result holds no key spelled __position__ ... *)
+Theorem C13_position_erasure_guarded :
+  forall ic text v w, loads true ic text = Ok v -> loads false ic text = Ok w -> no_pos w = true -> strip_pos v = w.
+Proof. exact position_erasure_loads_guarded. Qed.
+Print Assumptions C13_position_erasure_guarded.
+
+(* [R] ... and false without that guard: a METADATA entry whose key is the string
+   __position__ is overwritten by the position record (known finding
+   C13-kv-key-named-position; same two results on mappyfile.loads) *)
+Theorem C13_position_erasure_refuted :
+  exists text v w, loads true false text = Ok v /\ loads false false text = Ok w /\ strip_pos v <> w.
+Proof. exact position_erasure_loads_one_sided_refuted. Qed.
+Print Assumptions C13_position_erasure_refuted.
+
+(* [U] acceptance, comments off: a text that loads with positions loads without ... *)
+Theorem C13_position_acceptance_on_to_off_partial :
+  forall text v, loads true false text = Ok v -> exists w, loads false false text = Ok w.
+Proof. exact position_alignment_loads_on_to_off_partial. Qed.
+Print Assumptions C13_position_acceptance_on_to_off_partial.
+
+(* ... and conversely under a shape guard on the parse tree (children of
+   key-value blocks are tokens or pairs) that every tree the parser returns
+   satisfies but for which no grammar-conformance theorem is available: PARTIAL.
+   Without the guard it is false of arbitrary trees ([R] below). *)
+Theorem C13_position_acceptance_off_to_on_partial :
+  forall text w,
+    (forall t, parse_tree false text = Ok t -> gkv (canonize (gtree_of t)) = true) ->
+    loads false false text = Ok w -> exists v, loads true false text = Ok v.
+Proof. exact position_alignment_loads_off_to_on_partial. Qed.
+Print Assumptions C13_position_acceptance_off_to_on_partial.
+
+Theorem C13_position_acceptance_unguarded_refuted :
+  exists ic (t : tree), (exists y, tr_main false ic (gtree_of t) = Ok y) /\ tr_main true ic (gtree_of t) = Err LarkVisitError.
+Proof. exact position_alignment_off_to_on_unguarded_refuted. Qed.
+Print Assumptions C13_position_acceptance_unguarded_refuted.
+
+(* ---- include_comments *)
 
 (* [F] PARTIAL.  Full statement wanted: for EVERY text, the result of loads with
    include_position and/or include_comments, with the hidden __position__ and
